@@ -111,12 +111,36 @@ def render_entries(entries, names, top):
     return out
 
 
+def layout_of(stack):
+    """Deterministic directory layout for a stack: 0 = one directory, bare names;
+    1 = every file in its own sibling directory, referenced through `../dN/fN.toml`
+    (the path style of docs/configuration.md); 2 = one directory, referenced as
+    `./fN.toml` or through the parent directory `../<dir>/fN.toml`."""
+    import zlib
+
+    return zlib.crc32(repr(stack).encode()) % 3
+
+
 def render_stack(stack, d: Path):
-    names = [f"f{i}.toml" for i in range(len(stack))]
+    kind = layout_of(stack)
+    n = len(stack)
+    if kind == 1:
+        paths = [d / f"d{i}" / f"f{i}.toml" for i in range(n)]
+    else:
+        sub = d / "cfg"
+        paths = [sub / f"f{i}.toml" for i in range(n)]
+    for pth in paths:
+        pth.parent.mkdir(parents=True, exist_ok=True)
     for i, f in enumerate(stack):
+        if kind == 0:
+            names = [f"f{j}.toml" for j in range(n)]
+        elif kind == 1:
+            names = [f"../d{j}/f{j}.toml" for j in range(n)]
+        else:
+            names = [(f"./f{j}.toml" if (i + j) % 2 == 0 else f"../cfg/f{j}.toml") for j in range(n)]
         lines = ["[tool.pyanalyze]"] + render_entries(f, names, True)
-        (d / names[i]).write_text("\n".join(lines) + "\n")
-    return d / names[0]
+        paths[i].write_text("\n".join(lines) + "\n")
+    return paths[0]
 
 
 # ---------------------------------------------------------------------------
@@ -175,8 +199,17 @@ def gen_section(rng, top, nfiles, idx, allow_invalid, chainy):
 
 def gen_stack(rng, malformed=False, chainy=True):
     nfiles = rng.choice([1, 2, 2, 3, 3])
-    bad_at = rng.randrange(nfiles) if malformed else -1
-    return [gen_section(rng, True, nfiles, i, i == bad_at, chainy) for i in range(nfiles)]
+    cyclic = malformed and rng.random() < 0.3
+    bad_at = rng.randrange(nfiles) if (malformed and not cyclic) else -1
+    st = [gen_section(rng, True, nfiles, i, i == bad_at, chainy) for i in range(nfiles)]
+    if cyclic:
+        # recursive inclusion: the last file of the chain extends itself or an earlier file
+        k = 0
+        while k + 1 < nfiles and any(e[0] == "extend" and e[1] == ("file", k + 1) for e in st[k]):
+            k += 1
+        st[k] = [e for e in st[k] if e[0] != "extend"] + [("extend", ("file", rng.randrange(0, k + 1)))]
+        rng.shuffle(st[k])
+    return st
 
 
 def exhaustive_small_stacks():
